@@ -784,13 +784,18 @@ def run():
         nc, nr = ck.rng.randrange(1, 4), ck.rng.randrange(1, 4)
         cols = ["c%d" % i for i in range(nc)]
         rows = [[ck.rng.choice(strs) for _ in cols] for _ in range(nr)]
-        if any(all(c == "" for c in r) and nc == 1 for r in rows):
-            continue             # a lone empty cell is an empty line, which every CSV reader skips
-        buf = _io.StringIO()
-        w = _csv.writer(buf, lineterminator="\n", quoting=ck.rng.choice([_csv.QUOTE_MINIMAL, _csv.QUOTE_ALL]))
-        w.writerow(cols); w.writerows(rows)
-        doc = buf.getvalue()[:-1]
+        # RFC 4180 writer: a field with a comma, a quote, CR or LF is quoted (python's csv module leaves a bare CR unquoted)
+        allq = ck.rng.random() < 0.3
+
+        def fld(c):
+            return '"' + c.replace('"', '""') + '"' if (allq or any(ch in c for ch in ',"\r\n') or (c == "" and nc == 1)) else c
+        doc = "\n".join(",".join(fld(c) for c in r) for r in [cols] + rows)
         ft.append(("csv", 'from_text format:csv "%s"' % sp.esc_for('"', doc, ck.rng, 1), cols, rows, doc))
+    # directed: the replays of C08-N3 (white space at the edges of an unquoted CSV document) and C08-N2
+    for doc, rows in (("c0,c1\nfoo  ,bar  ", [["foo  ", "bar  "]]), ("c0\nx\n\ty\t", [["x"], ["\ty\t"]])):
+        ft.append(("csv", 'from_text format:csv "%s"' % sp.esc_for('"', doc, ck.rng, 1), doc.split("\n")[0].split(","), rows, doc))
+    doc = '[{"c0": 9223372036854775807, "c1": 9223372036854775808, "c2": [1, 2]}]'
+    ft.append(("json", "from_text format:json '%s'" % doc, ["c0", "c1", "c2"], [[2**63 - 1, 2**63, [1, 2]]], doc))
     fans = harness("log", [{"src": f[1], "target": "sql.sqlite", "want": [], "msg_prefix": "verif:literal"} for f in ft])
     fex = harness("exec", [{"setup": [], "sql": a.get("ok", "SELECT 1")} for a in fans])
 
